@@ -8,7 +8,7 @@ Work is measured in interpreter line events (mcx.meter), not seconds.
 import itertools
 import struct
 
-from mcx import core, meter, refcodec as R
+from mcx import core, fakes, meter, refcodec as R
 from mcx.refcodec import Var
 
 PROP = 'C05'
@@ -534,6 +534,97 @@ def _task_scaling(task):
     return res
 
 
+def _task_bus_victim(task):
+    """hostile bytes cost the peer that sent them at most its own
+    connection: a real client of the library sits on the built-in bus with a
+    match rule; another peer sends mutated messages that the bus may hand
+    on; after each of them a well-behaved peer sends a signal, which the
+    client must still receive"""
+    part, nparts = task
+    from twisted.internet.protocol import Factory
+    from txdbus import bus as B
+    from mcx.checks import c11
+    res = core.Result()
+    s = c11.System(dict(n=1, exporters={}, calls=[]), 'explicit')
+    try:
+        victim = s.cprotos[0]
+        seen = []
+        victim.addMatch(lambda m: seen.append(m.body), mtype='signal',
+                        interface='a.b')
+        s.pump()
+        bf = Factory()
+        bf.protocol = B.BusProtocol
+        bf.bus = s.bus
+
+        def raw_peer():
+            rp = bf.buildProtocol(None)
+            rt = fakes.FakeTransport()
+            rp.makeConnection(rt)
+            rp.dataReceived(b'\0AUTH ANONYMOUS\r\nBEGIN\r\n')
+            rp.dataReceived(R.encode_message(
+                1, 1, {'path': '/org/freedesktop/DBus', 'member': 'Hello',
+                       'interface': 'org.freedesktop.DBus',
+                       'destination': 'org.freedesktop.DBus'}))
+            return rp, rt
+        good, _gt = raw_peer()
+        cases = []
+        for le in (True, False):
+            for kind, f in (('signal', {'path': '/s', 'member': 'Sig',
+                                        'interface': 'a.b'}),
+                            ('call', {'path': '/o', 'member': 'M',
+                                      'destination': victim.busName})):
+                base = R.encode_message(4 if kind == 'signal' else 1, 5, f,
+                                        'su', ['payload', 7], little=le)
+                for b in range(256):
+                    cases.append(('%s/byte0' % kind,
+                                  bytes([b]) + base[1:]))
+                for pos in range(1, 16):
+                    for b in SUBS:
+                        cases.append(('%s/byte%d' % (kind, pos),
+                                      base[:pos] + bytes([b])
+                                      + base[pos + 1:]))
+        hostile = None
+        k = 0
+        for ci, (tag, raw) in enumerate(cases):
+            if ci % nparts != part:
+                continue
+            res.count('states')
+            res.count('evaluations')
+            res.count('transitions', 2)
+            res.count('nontrivial')
+            # (a fresh sender every time: what an earlier mutation left in
+            # its receive buffer must not swallow this one)
+            if hostile is not None:
+                hostile[0].connectionLost(fakes.lost_reason())
+            hostile = raw_peer()
+            try:
+                hostile[0].dataReceived(raw)
+            except Exception:
+                hostile[1].disconnecting = True     # its own connection
+            k += 1
+            del seen[:]
+            try:
+                good.dataReceived(R.encode_message(
+                    4, 100 + k, {'path': '/s', 'member': 'Ok',
+                                 'interface': 'a.b'}, 'u', [k]))
+                s.pump()
+                ok = [k] in seen
+                why = 'received %r' % (seen,)
+            except Exception as e:
+                ok, why = False, 'raised %r' % (e,)
+            if not ok:
+                res.violation('%s/bus-victim/%s' % (PROP, tag),
+                              'after another peer had sent %s to the bus, a '
+                              'client of the library on the same bus no '
+                              'longer receives the signals its rule matches '
+                              '(%s)' % (raw[:24].hex(), why),
+                              {'part': 'victim'}, size=len(raw))
+                break
+    finally:
+        s.close()
+    return res
+
+
 def run(ctx):
     L = 4 if ctx.quick else 6
     ctx.rule = (
@@ -568,6 +659,7 @@ def run(ctx):
                         for i in range(len(base_messages()))])
     ctx.map(_task_sigs, [(c, L) for c in SIG_ALPHABET])
     ctx.map(_task_families, [not ctx.quick])
+    ctx.map(_task_bus_victim, [(i, 4) for i in range(4)])
     sizes = (50, 200) if ctx.quick else (50, 200, 800, 2000)
     ctx.map(_task_scaling, [(i, sizes)
                             for i in range(len(scalable_families()))])
@@ -582,6 +674,9 @@ def replay(data):
             raw = bytes.fromhex(data['raw'])
             check_parse(res, raw, 'replay', data)
             check_protocol(res, raw, 'replay', data)
+    elif data['part'] == 'victim':
+        for i in range(4):
+            res.merge(_task_bus_victim((i, 4)))
     elif data['part'] == 'scaling':
         res = _task_scaling((data['idx'], (data['m'],)))
     elif data['part'] == 'sig':
